@@ -21,6 +21,7 @@ def pymod(a, b):
 
 class ExprMixin:
     spec_mode = False
+    method_models: dict = {}     # (class, method) -> FnDecl for methods of classes that are not extracted
 
     # ---------------------------------------------------------------- helpers
     def bind(self, results, f):
@@ -166,16 +167,33 @@ class ExprMixin:
         return self.bind(self.ev_list([e.value if isinstance(e, ast.Starred) else e for e in elts], p), fin)
 
     def ev_List(self, node, p):
+        hint = self.pending_list_hint      # Ty of the whole literal (TRef to a list box class) or None
+        self.pending_list_hint = None
+        ety_hint = None
+        if hint is not None and isinstance(hint, TRef) and hint.cls in self.classes and self.classes[hint.cls].box:
+            ety_hint = self.classes[hint.cls].box[1]
+
         def fin(q, vs):
             if not vs:
-                hint = self.pending_list_hint
-                self.pending_list_hint = None
-                if hint is not None:
-                    return [(q, self.new_box(q, "list", [hint], VSeq.empty(hint)))]
-                r = self.new_object(q, "list[?]", "list")
-                return [(q, r)]
-            ety = self.join_types([v for v in vs])
+                if ety_hint is not None:
+                    return [(q, self.new_box(q, "list", [ety_hint], VSeq.empty(ety_hint)))]
+                return [(q, self.new_object(q, "list[?]", "list"))]
+            ety = ety_hint or self.join_types([v for v in vs])
             return [(q, self.new_box(q, "list", [ety], VSeq.of([coerce(v, ety) for v in vs], ety)))]
+        if ety_hint is not None and node.elts:
+            res = [(p, [])]
+            for n in node.elts:
+                nxt = []
+                for q, acc in res:
+                    if isinstance(acc, Exc):
+                        nxt.append((q, acc))
+                        continue
+                    self.pending_list_hint = ety_hint if isinstance(n, ast.List) else None
+                    for q2, v in self.ev(n, q):
+                        nxt.append((q2, v if isinstance(v, Exc) else acc + [v]))
+                    self.pending_list_hint = None
+                res = nxt
+            return self.bind(res, fin)
         return self.bind(self.ev_list(node.elts, p), fin)
 
     pending_list_hint = None
@@ -607,6 +625,10 @@ class ExprMixin:
                     return [(p, VFunc("method", (owner, k[6:], v), f"{owner}.{k[6:]}"))]
         if self.field_decl(v.cls, name) is not None:
             return [(p, self.read_field(p, v, name))]
+        for c in self.mro(v.cls):
+            mm = self.method_models.get((c, name))
+            if mm is not None:
+                return [(p, VFunc("fn", (mm, v), f"{c}.{name}"))]
         r = self.attr_extra(p, v, name, node)
         if r is not None:
             return r
